@@ -20,7 +20,7 @@ import (
 	"encoding/json"
 	"fmt"
 	"io"
-		"net/http"
+	"net/http"
 	"sort"
 	"strings"
 	"sync"
@@ -102,13 +102,18 @@ func NewSystem(name string, nsess int) *SSystem {
 	for _, op := range []string{"fullsync", "attach", "disconnect", "deliver"} {
 		s.evs = append(s.evs, core.Event{"op": op, "id": 0})
 	}
+	// an attachment during which the active's stream handler is descheduled right after the first
+	// bytes of the response were flushed to the standby; it runs on at the next non-push event
+	s.evs = append(s.evs, core.Event{"op": "attach", "id": 0, "hold": 1})
 	return s
 }
 
-func (s *SSystem) Name() string            { return s.name }
-func (s *SSystem) Events() []core.Event    { return s.evs }
-func (s *SSystem) Config() map[string]any  { return map[string]any{"impl": s.name, "nsess": s.NSess, "nsubs": 0} }
-func (s *SSystem) New() core.Instance      { return newInst(s) }
+func (s *SSystem) Name() string         { return s.name }
+func (s *SSystem) Events() []core.Event { return s.evs }
+func (s *SSystem) Config() map[string]any {
+	return map[string]any{"impl": s.name, "nsess": s.NSess, "nsubs": 0}
+}
+func (s *SSystem) New() core.Instance { return newInst(s) }
 
 type streamEvent struct {
 	raw       []byte // the complete SSE event as the active wrote it
@@ -131,16 +136,22 @@ type inst struct {
 
 	phase string // "down" | "synced" | "streaming"  (the standby reconnect loop, played by the harness)
 
-	mu       sync.Mutex
-	cond     *sync.Cond
-	inbox    []streamEvent // events received from the active, not yet handed to the standby
-	arrived  int           // data events received from the active on the current stream
-	release  int           // events the schedule allows the standby to read
-	idle     int           // number of times the standby asked for more stream data
-	closed   bool          // the stream has been cut
-	upstream io.Closer
-	cancelUp context.CancelFunc
+	mu         sync.Mutex
+	cond       *sync.Cond
+	inbox      []streamEvent // events received from the active, not yet handed to the standby
+	arrived    int           // data events received from the active on the current stream
+	release    int           // events the schedule allows the standby to read
+	idle       int           // number of times the standby asked for more stream data
+	closed     bool          // the stream has been cut
+	upstream   io.Closer
+	cancelUp   context.CancelFunc
 	streamDone chan error
+
+	// the active's stream handler held after its first flush (attach with hold)
+	holdArm  atomic.Bool
+	holdCh   chan struct{}
+	held     bool
+	heldPush []string // changes pushed while held that the active queued for the stream
 
 	// end-to-end mode (e2e.go): events are handed over as soon as the standby asks
 	free          bool
@@ -159,7 +170,7 @@ func newInst(s *SSystem) *inst {
 	ac.NodeID, ac.Role = "bng-active", ha.RoleActive
 	in.active = ha.NewHASyncer(ac, in.activeStore, zap.NewNop())
 	in.ln = newMemListener()
-	in.srv = &http.Server{Handler: in.active.VerifHandler()}
+	in.srv = &http.Server{Handler: in.holdable(in.active.VerifHandler())}
 	go in.srv.Serve(in.ln)
 	in.host = in.ln.Addr().String()
 	sc := ha.DefaultSyncConfig()
@@ -169,6 +180,53 @@ func newInst(s *SSystem) *inst {
 	in.standby = ha.NewHASyncer(sc, in.standbyStore, zap.NewNop())
 	byHost.Store(in.host, in)
 	return in
+}
+
+// holdable passes every request to the real handler; for the stream request it can hold the handler
+// goroutine right after its first Flush (the scheduler's freedom, made explicit).
+func (in *inst) holdable(h http.Handler) http.Handler {
+	return http.HandlerFunc(func(w http.ResponseWriter, r *http.Request) {
+		if f, ok := w.(http.Flusher); ok && r.URL.Path == "/ha/sessions/stream" && in.holdArm.CompareAndSwap(true, false) {
+			w = &holdWriter{ResponseWriter: w, f: f, in: in}
+		}
+		h.ServeHTTP(w, r)
+	})
+}
+
+type holdWriter struct {
+	http.ResponseWriter
+	f    http.Flusher
+	in   *inst
+	done bool
+}
+
+func (hw *holdWriter) Flush() {
+	hw.f.Flush()
+	if !hw.done {
+		hw.done = true
+		<-hw.in.holdCh
+	}
+}
+
+// unhold lets a held stream handler run on and waits until what it owes has reached the network.
+func (in *inst) unhold() {
+	if !in.held {
+		return
+	}
+	in.held = false
+	in.mu.Lock()
+	want := in.arrived + len(in.heldPush)
+	in.mu.Unlock()
+	in.heldPush = nil
+	close(in.holdCh)
+	if !in.waitFor(arrivalTimeout(), func() bool { return in.arrived >= want || in.closed }) {
+		missSeen.Store(true)
+	}
+	// the handler registers the stream (if it had not) within its next few instructions
+	deadline := time.Now().Add(2 * time.Second)
+	for in.active.VerifSSEClients() == 0 && time.Now().Before(deadline) {
+		time.Sleep(100 * time.Microsecond)
+	}
 }
 
 // openStream is the network's handling of the standby's stream request.
@@ -382,6 +440,10 @@ func (in *inst) push(kind ha.SyncMessageType, s *ha.SessionState) (clients int, 
 	if err != nil || n == 0 || clients == 0 || in.phase != "streaming" {
 		return clients, false, err
 	}
+	if in.held { // queued by the active for a handler that is not running: arrives after unhold
+		in.heldPush = append(in.heldPush, fmt.Sprintf("%s:%s", kind, s.SessionID))
+		return clients, false, nil
+	}
 	ok := in.waitFor(arrivalTimeout(), func() bool { return in.arrived >= want || in.closed })
 	if !ok {
 		missSeen.Store(true)
@@ -393,6 +455,9 @@ func (in *inst) Apply(ev core.Event) map[string]any {
 	op := ev["op"].(string)
 	id := toInt(ev["id"])
 	res := map[string]any{"did": false, "v": 0, "ok": true, "clients": 0, "arrived": false, "none": false, "kind": "", "mid": 0, "mv": 0, "dropped": 0}
+	if op != "add" && op != "update" && op != "delete" {
+		in.unhold()
+	}
 	switch op {
 	case "add", "update", "delete":
 		cur, have := in.activeStore.GetSession(sessID(id))
@@ -434,7 +499,28 @@ func (in *inst) Apply(ev core.Event) map[string]any {
 			res["none"] = true
 			return res
 		}
+		if toInt(ev["hold"]) == 1 {
+			in.holdCh = make(chan struct{})
+			in.holdArm.Store(true)
+		}
 		res["ok"] = in.attach()
+		if toInt(ev["hold"]) == 1 {
+			if in.holdArm.CompareAndSwap(true, false) { // the request never reached the handler
+				close(in.holdCh)
+			} else {
+				in.held = true
+				if !res["ok"].(bool) {
+					in.unhold()
+				}
+			}
+		}
+		if res["ok"].(bool) && !in.held {
+			// an undisturbed handler: let it reach its event loop before anything else happens
+			deadline := time.Now().Add(2 * time.Second)
+			for in.active.VerifSSEClients() == 0 && time.Now().Before(deadline) {
+				time.Sleep(100 * time.Microsecond)
+			}
+		}
 		if res["ok"].(bool) {
 			in.phase = "streaming"
 		} else {
@@ -597,7 +683,7 @@ func (in *inst) Fingerprint() string {
 	for _, k := range keys {
 		fmt.Fprintf(&sb, "%s=%v|", k, obs[k])
 	}
-	fmt.Fprintf(&sb, "queue=%v|", in.queue())
+	fmt.Fprintf(&sb, "queue=%v|held=%v%v|", in.queue(), in.held, in.heldPush)
 	sb.WriteString(core.Fingerprint(in.standby, fpOpt))
 	sb.WriteString("|")
 	sb.WriteString(core.Fingerprint(in.active, fpOpt))
@@ -607,6 +693,7 @@ func (in *inst) Fingerprint() string {
 func (in *inst) Probe() map[string]any { return nil }
 
 func (in *inst) Close() {
+	in.unhold()
 	if in.phase == "streaming" {
 		in.cut()
 	}
